@@ -12,12 +12,14 @@ import Driver.CollectiveOps
 import Driver.SnapshotOps
 import Driver.JsonOps
 import Driver.CommitOps
+import Driver.SchedOps
 open Lean Ts.Drv
 
 namespace Ts.Drv
 
 /-- All registered op handlers; first match wins. -/
 def handlers : List Handler := [
+  SchedOps.handle,
   CommitOps.handle,
   JsonOps.handle,
   SnapshotOps.handle,
